@@ -2,11 +2,11 @@
 package mon
 
 import (
-	"sync"
 	"bytes"
 	"fmt"
 	"reflect"
 	"sort"
+	"sync"
 
 	"github.com/brocaar/lorawan"
 
